@@ -98,7 +98,7 @@ static int setup (uint64_t seed) {
 		S.idx[i] = collide ? base + 64 * (i % 2) + 128 * 0 + (i / 2) * 1 : base + i;
 		if (collide && i == 2) S.idx[i] = base + 1;
 		memset ((void *) &pool_[S.idx[i]], 0, sizeof (pool_[0]));
-		S.runs[i] = 0; S.completed[i] = 0; S.nest[i] = -1; S.linger[i] = (int) rt_rand_n (5);
+		S.runs[i] = 0; S.completed[i] = 0; S.nest[i] = -1; S.linger[i] = (int) rt_rand_n (5); if (rt_mode_b () && rt_rand_n (6) == 0) S.linger[i] = 150 + (int) rt_rand_n (700);   /* a once-function that outlasts many back-off waits of its waiters */
 	}
 	if (collide && S.n >= 2) rt_cover (CV_COLLIDING_ROUNDS);
 	/* nesting only towards higher indices: no cycles */
